@@ -476,6 +476,9 @@ pub fn eval_unit_name(
                 let (left_unit, left) = eval_unit_name(ctx, &binop.left)?;
                 let (right_unit, right) = eval_unit_name(ctx, &binop.right)?;
 
+                if right == Numeric::zero() {
+                    return Err(QueryError::generic("Division by zero".to_string()));
+                }
                 let right_unit = right_unit
                     .into_iter()
                     .map(|(k, v)| (k, -v))
@@ -504,6 +507,9 @@ pub fn eval_unit_name(
                 }
                 let right = right.value.to_f64();
                 let (left_unit, left_value) = eval_unit_name(ctx, &binop.left)?;
+                if left_value == Numeric::zero() && right < 0.0 {
+                    return Err(QueryError::generic("Division by zero".to_string()));
+                }
                 Ok((
                     left_unit
                         .into_iter()
